@@ -43,6 +43,7 @@ func RegistPullStreamFactory(f PullStreamFactory) {
 // Regist 注册流
 func Regist(s *Stream) {
 	// 获取同 path 的现有流
+	simhook.BeforeLock(&registLock)
 	registLock.Lock()
 	oldSI, ok := streams.Load(s.path)
 	if s == oldSI { // 如果是同一个源
@@ -68,6 +69,7 @@ func Regist(s *Stream) {
 
 // Unregist 取消注册
 func Unregist(s *Stream) {
+	simhook.BeforeLock(&registLock)
 	registLock.Lock()
 	si, ok := streams.Load(s.path)
 	if ok {
